@@ -810,7 +810,7 @@ theorem cStmt_eq_rel : ∀ (st : Stmt) (g : CG) (lc : Option LoopCtx), simpleStm
     rw [cBinds_eq_rel binds _ hs.1,
       cBlock_eq_rel body _ (pushScope .with_ lc) hs.2 (Compat_push (by simp) (by simp) hc),
       endScope_withBreaks, add_withBreaks]
-    congr 1
+    congr 1 <;>
     simp [CG.startScope, CG.endScope, CG.extend, CG.add, CG.next, Nat.add_assoc, Nat.add_comm]
   | .forS t iter flt body els, g, lc, h, hc => by
     sorry
@@ -822,7 +822,7 @@ theorem cStmt_eq_rel : ∀ (st : Stmt) (g : CG) (lc : Option LoopCtx), simpleStm
       endScope_withBreaks, add_withBreaks, cFilters_eq_rel filters _ hs.1, extend_withBreaks, add_withBreaks]
     simp only [CG.next_withBreaks, CG.aux_withBreaks]
     rw [scope_block]
-    congr 1
+    congr 1 <;>
     simp [CG.extend, CG.add, CG.next, CG.startScope, Nat.add_assoc, Nat.add_comm, Nat.add_left_comm]
   | .filterBlock filters body, g, lc, h, hc => by
     have hs : simpleFilters filters = true ∧ simpleBlock (pushScope .capture lc).isSome body = true := by
@@ -832,7 +832,7 @@ theorem cStmt_eq_rel : ∀ (st : Stmt) (g : CG) (lc : Option LoopCtx), simpleStm
       endScope_withBreaks, add_withBreaks, cFilters_eq_rel filters _ hs.1, extend_withBreaks, add_withBreaks]
     simp only [CG.next_withBreaks, CG.aux_withBreaks]
     rw [scope_block]
-    congr 1
+    congr 1 <;>
     simp [CG.extend, CG.add, CG.next, CG.startScope, Nat.add_assoc, Nat.add_comm, Nat.add_left_comm]
   | .macroS .., _, lc, h, _ => by simp [simpleStmt] at h
   | .callBlock .., _, lc, h, _ => by simp [simpleStmt] at h
@@ -845,9 +845,8 @@ theorem cStmt_eq_rel : ∀ (st : Stmt) (g : CG) (lc : Option LoopCtx), simpleStm
   | .continueS, g, some l, _, hc => by
     simp only [cStmt, relStmt, setExit]
     rw [leaveScopes_eq, hc.2]
-    have : CG.innermostLoopIter (g.extend (leaveCode l.scopes, g.aux)).pending = some l.iter := by
-      simpa using hc.1
-    simp [this, CG.extend, CG.add]
+    have h1 := hc.1
+    simp [h1, CG.extend, CG.add]
 theorem cBlock_eq_rel : ∀ (ss : List Stmt) (g : CG) (lc : Option LoopCtx), simpleBlock lc.isSome ss = true →
     Compat g.pending lc →
     cBlock ss g = (g.extend (relBlock ss g.next g.aux (setExit 0 lc)).1).withBreaks
